@@ -166,7 +166,7 @@ def run(rep, tier):
         run_generated_errors(rep)
     with rep.part('metadata through references'):
         run_metadata_through_refs(rep)
-    ops = [{'op': 'error_encode'}, {'op': 'error_encode_kinds'}]
+    ops = [{'op': 'error_encode'}, {'op': 'error_encode_kinds'}, {'op': 'error_encode_doubles'}]
     for o, r in zip(ops, replay(ops)):
         rep.replayed += 1
         if not r.get('ok'):
